@@ -27,15 +27,17 @@ type Sim struct {
 	dist   []int
 	wk     []simWorker
 	ch     map[int][]int
-	want   map[int][]int
+	want   map[int][]int // still to be received by the subscriber
+	need   map[int][]int // still to be sent to the subscriber (received later, or left in its buffer)
 	live   bool
 	Stuck  string
 }
 
-func NewSim(c Cfg, logs map[int][]int) *Sim {
-	s := &Sim{cfg: c, wk: make([]simWorker, c.NW()), ch: map[int][]int{}, want: map[int][]int{}, live: true}
+func NewSim(c Cfg, logs, left map[int][]int) *Sim {
+	s := &Sim{cfg: c, wk: make([]simWorker, c.NW()), ch: map[int][]int{}, want: map[int][]int{}, need: map[int][]int{}, live: true}
 	for k, v := range logs {
 		s.want[k] = append([]int(nil), v...)
+		s.need[k] = append(append([]int(nil), v...), left[k]...)
 	}
 	return s
 }
@@ -53,16 +55,15 @@ func (s *Sim) isSub(i int) bool {
 
 // deliverable: m is the next message subscriber i must get through a send.
 func (s *Sim) deliverable(i, m int) bool {
-	w := s.want[i]
-	if s.cfg.Buf == 0 {
-		return len(w) > 0 && w[0] == m
+	n := s.need[i]
+	if len(n) == 0 || n[0] != m {
+		return false
 	}
-	k := len(s.ch[i])
-	return k < s.cfg.Buf && len(w) > k && w[k] == m
+	return s.cfg.Buf == 0 || len(s.ch[i]) < s.cfg.Buf
 }
 
 func (s *Sim) wants(i, m int) bool {
-	for _, x := range s.want[i] {
+	for _, x := range s.need[i] {
 		if x == m {
 			return true
 		}
@@ -71,7 +72,7 @@ func (s *Sim) wants(i, m int) bool {
 }
 
 func (s *Sim) anyWants(m int) bool {
-	for i := range s.want {
+	for i := range s.need {
 		if s.wants(i, m) {
 			return true
 		}
@@ -109,6 +110,7 @@ func (s *Sim) progress() bool {
 		for _, i := range k.pend {
 			if s.deliverable(i, k.m) {
 				s.emit("ESend %d %d", w, i)
+				s.need[i] = s.need[i][1:]
 				if s.cfg.Buf == 0 {
 					s.want[i] = s.want[i][1:]
 				} else {
@@ -223,7 +225,7 @@ func (s *Sim) drain(all bool, only int) {
 		ok := all
 		if !ok {
 			if only >= 0 {
-				ok = len(s.want[only]) > 0 && s.anyWantsUpTo(only)
+				ok = len(s.need[only]) > 0 && s.anyWantsUpTo(only)
 			} else {
 				ok = s.anyWants(head)
 			}
